@@ -49,10 +49,11 @@ Import ListNotations.
 Open Scope Q_scope.
 """
 
-GOAL_PREAMBLE = """From Coq Require Import Reals List QArith Qreals ZArith.
+GOAL_PREAMBLE = """Set Warnings "-ambiguous-paths".
+From Coq Require Import Reals List QArith Qreals ZArith.
 From Coquelicot Require Import Coquelicot.
 From Interval Require Import Tactic.
-From IT Require Import Model.KdeRegions RealModel.Kde.
+From IT Require Import Model.KdeRegions RealModel.Kde Proofs.KdeProofs.
 Import ListNotations.
 Open Scope R_scope.
 Ltac kde_rot_goal :=
@@ -115,7 +116,7 @@ def gen_struct_case(r, tier, wide_ok=True):
     xs = gen_sample(r, kind, n)
     rng_ = max(xs) - min(xs)
     # bandwidth from range/1000 to 100*range, log-uniform
-    f = 10 ** r.uniform(-3, 2)
+    f = 10 ** (r.uniform(-3, 2) if r.random() < 0.25 else r.uniform(-1.8, 2))
     h = dyadic_near(rng_ * Fraction(f).limit_denominator(10 ** 6))
     return {"sample": xs, "h": h, "kind": kind}
 
@@ -389,9 +390,12 @@ def run(rep: C.Report, tier: str) -> int:
     C.prove_and_audit(rep, PROP, THEOREMS)
     lap("audit")
 
+    from concurrent.futures import ThreadPoolExecutor
+    pool = ThreadPoolExecutor(max_workers=3)
+
     # ---------- 1. discrete structure, exactly ----------
     r = C.rng_for(PROP, "structure")
-    n_struct = 140 if quick else 1500
+    n_struct = 110 if quick else 1500
     cases, obs_l = [], []
     for k in range(n_struct):
         case = gen_struct_case(r, tier)
@@ -411,7 +415,6 @@ def run(rep: C.Report, tier: str) -> int:
                         "bandwidth": float(case["h"]), "layers": obs["n"],
                         "points": [float(p) for p in obs["points"][:6]],
                         "pdf": [float(v) for v in obs["pdf"][:6]]})
-
     lap("run implementation (structure)")
     suspicious = {}          # case index -> reason
     texts = []
@@ -423,42 +426,22 @@ def run(rep: C.Report, tier: str) -> int:
             continue
         texts.append((k, coq_struct_case(case, obs)))
     files, index = [], []
-    CH = 12
+    CH = 8
     for i in range(0, len(texts), CH):
         chunk = texts[i:i + CH]
         body = "Definition cases : list kde_case :=\n " + C.clist([t for _, t in chunk], ";\n ") + "."
         p = C.write_case_file(PROP, f"structure_{i // CH}", HEADER, body, ["failing_codes cases 0"])
         files.append(p)
         index.append([k for k, _ in chunk])
-    outs = C.run_case_files(files, jobs=14)
-    n_checked = 0
-    for p, idx, (ok, res, log) in zip(files, index, outs):
-        if not ok or 0 not in res:
-            rep.obligation(False)
-            rep.violation("C12/correspondence-run", f"case file {p.name} did not evaluate",
-                          {"theorem_or_correspondence": f"correspondence file {p.name}", "log": log[-800:]}, False)
-            continue
-        rep.obligation(True)
-        n_checked += len(idx)
-        codes = res[0]
-        cm = {codes[j]: codes[j + 1] for j in range(0, len(codes) - 1, 2)}
-        for j in sorted(cm):
-            code = cm[j]
-            what = [BITS[b] for b in range(7) if code >> b & 1]
-            suspicious[idx[j]] = "model and implementation disagree on: " + ", ".join(what)
-            for b in range(7):
-                if code >> b & 1:
-                    rep.count("disagree:" + BITS[b].split(" (")[0])
-    rep.coverage["structures_validated_against_impl"] = n_checked
-    lap("structure in Coq")
+    fut_struct = pool.submit(C.run_case_files, files, 7 if quick else 14)
 
     # ---------- 2. pdf / cdf values by interval goals ----------
     rg = C.rng_for(PROP, "goals")
     defs, goals = [], []
     goal_case = {}
     n_pdf = n_cdf = 0
-    max_pdf = 110 if quick else 900
-    max_cdf = 36 if quick else 300
+    max_pdf = 100 if quick else 900
+    max_cdf = 20 if quick else 250
     for k, (case, obs) in enumerate(zip(cases, obs_l)):
         if obs["status"] != "ok" or len(case["sample"]) > 30 or obs["n"] > 12:
             continue
@@ -476,64 +459,28 @@ def run(rep: C.Report, tier: str) -> int:
             goals.append((gid, st, "kde_pdf_goal"))
             goal_case[gid] = (k, i)
             n_pdf += 1
-        if len(case["sample"]) <= 16 and n_cdf < max_cdf:
-            i = pts[2]
-            v = C.frac(obs["cdf"][i])
-            st = (f"Rabs (cdf_code_at {obs['n']} s_{k} {C.cq(case['h'])} {C.cq(obs['points'][i])} - "
-                  f"{C.cR(v)}) <= {C.cR(Fraction(1, 10 ** 9))}")
-            gid = f"cdf_{k}_{i}"
-            goals.append((gid, st, "kde_cdf_goal"))
-            goal_case[gid] = (k, i)
-            n_cdf += 1
+        if len(case["sample"]) <= 14 and n_cdf < max_cdf:
+            # integral enclosures get expensive for |z| >> 10: stay within 6 h of the data
+            lo, hi, h = min(case["sample"]), max(case["sample"]), case["h"]
+            near = [i for i in pts[2:] if lo - 6 * h <= obs["points"][i] <= hi + 6 * h]
+            if near:
+                i = near[0]
+                v = C.frac(obs["cdf"][i])
+                st = (f"Rabs (cdf_code_at {obs['n']} s_{k} {C.cq(case['h'])} {C.cq(obs['points'][i])} - "
+                      f"{C.cR(v)}) <= {C.cR(Fraction(1, 10 ** 9))}")
+                gid = f"cdf_{k}_{i}"
+                goals.append((gid, st, "kde_cdf_goal"))
+                goal_case[gid] = (k, i)
+                n_cdf += 1
     pre = GOAL_PREAMBLE + "\n".join(defs) + "\n"
-    failed, broken = I.check_goals(PROP, "values", goals, preamble=pre, chunk=10, jobs=14, timeout=600)
-    rep.obligation(True, len(goals) - len(failed))
-    rep.obligation(False, len(failed))
-    rep.coverage["interval_goals"] = {"pdf": n_pdf, "cdf": n_cdf, "failed": len(failed)}
-    for b in broken:
-        rep.violation("C12/goal-run", "a goal file could not be processed",
-                      {"theorem_or_correspondence": "generated interval goals", "log": b[-800:]}, False)
-    for gid, log in failed:
-        k, i = goal_case[gid]
-        suspicious.setdefault(k, f"interval goal {gid} fails: the model's value at point {float(obs_l[k]['points'][i])} "
-                                 f"is not the implementation's")
+    # cdf goals are the slow ones: spread them over the chunks
+    goals.sort(key=lambda g: g[0].startswith("cdf"))
+    nchunks = max(1, (len(goals) + 9) // 10)
+    goals = [g for c in range(nchunks) for g in goals[c::nchunks]]
+    fut_vals = pool.submit(I.check_goals, PROP, "values", goals, pre, "", (len(goals) + nchunks - 1) // nchunks,
+                           8 if quick else 14, 600)
 
-    lap("value goals")
-    # ---------- 3. failing-input search on every disagreement ----------
-    rs = C.rng_for(PROP, "search")
-    reported = 0
-    for k in sorted(suspicious):
-        if reported >= 4:
-            break
-        case, obs = cases[k], obs_l[k]
-        pts = obs.get("points") or [min(case["sample"]), max(case["sample"])]
-        bad = property_failures(case["sample"], case["h"], pts, rs)
-        reported += 1
-        if bad:
-            small = shrink_struct(case, pts)
-            rep.violation("C12/property", "; ".join(bad[:2]),
-                          {"check": "values", "case": describe(small[0], small[1]), "why": suspicious[k]}, True)
-        else:
-            rep.violation("C12/correspondence", suspicious[k] + " -- the property was not seen to fail on this input",
-                          {"theorem_or_correspondence": "Model.KdeRegions.check_structure / RealModel.Kde goals",
-                           "case": describe(case, pts)}, False)
-
-    # ---------- 4. the property oracle on agreeing cases ([R], cheap second opinion) ----------
-    step = 6 if quick else 3
-    n_oracle = 0
-    for k in range(0, len(cases), step):
-        if k in suspicious or obs_l[k]["status"] != "ok":
-            continue
-        bad = property_failures(cases[k]["sample"], cases[k]["h"], obs_l[k]["points"], rs)
-        n_oracle += 1
-        if bad:
-            rep.violation("C12/property", "; ".join(bad[:2]),
-                          {"check": "values", "case": describe(cases[k], obs_l[k]["points"])}, True)
-            break
-    rep.coverage["oracle_runs_R"] = n_oracle
-
-    lap("search + oracle")
-    # ---------- 5. bandwidth modes ----------
+    # ---------- 3. bandwidth modes: goals ----------
     rb = C.rng_for(PROP, "bandwidth")
     bw_goals, bw_case = [], {}
     Rec = recorder_class()
@@ -553,11 +500,11 @@ def run(rep: C.Report, tier: str) -> int:
             h0 = float(kd.simple_bandwidth_estimator())
             widths = list(Rec.widths[:5])
         except Exception as e:
-            bw_case[f"exc_{k}"] = (s, "cv")
             rep.obligation(False)
             bad = bandwidth_equivariance_failures(s, "cv") or [f"cross_validation=True raises {e!r}"[:250]]
-            rep.violation("C12/property", bad[0],
-                          {"check": "bandwidth", "mode": "cv", "sample_hex": [float(v).hex() for v in s]}, True)
+            if not any(v["replay"].get("mode") == "cv" for v in rep.violations):
+                rep.violation("C12/property", bad[0],
+                              {"check": "bandwidth", "mode": "cv", "sample_hex": [float(v).hex() for v in s]}, True)
             continue
         if n <= 10:
             lit = C.clist([C.cR(v) for v in s])
@@ -572,7 +519,85 @@ def run(rep: C.Report, tier: str) -> int:
                 gid = f"cv_{k}_{m}"
                 bw_goals.append((gid, st, "kde_cv_goal"))
                 bw_case[gid] = (s, "cv")
-    failed, broken = I.check_goals(PROP, "bandwidth", bw_goals, preamble=GOAL_PREAMBLE, chunk=12, jobs=8, timeout=600)
+    fut_bw = pool.submit(I.check_goals, PROP, "bandwidth", bw_goals, GOAL_PREAMBLE, "", 28, 2 if quick else 6, 600)
+    lap("generate goals")
+
+    # ---------- 4. [R] runs on the implementation while Coq works ----------
+    rs = C.rng_for(PROP, "search")
+    step = 6 if quick else 3
+    n_oracle = 0
+    for k in range(0, len(cases), step):
+        if obs_l[k]["status"] != "ok":
+            continue
+        bad = property_failures(cases[k]["sample"], cases[k]["h"], obs_l[k]["points"], rs)
+        n_oracle += 1
+        if bad:
+            small = shrink_struct(cases[k], obs_l[k]["points"])
+            rep.violation("C12/property", "; ".join(bad[:2]),
+                          {"check": "values", "case": describe(small[0], small[1])}, True)
+            break
+    rep.coverage["oracle_runs_R"] = n_oracle
+    n_eq = 0
+    for kind, s in bw_samples[: (6 if quick else 40)]:
+        for mode in ("simple", "cv"):
+            bad = bandwidth_equivariance_failures(s, mode)
+            n_eq += 1
+            if bad and not any(v["replay"].get("mode") == mode for v in rep.violations):
+                rep.violation("C12/property", bad[0],
+                              {"check": "bandwidth", "mode": mode, "sample_hex": [float(v).hex() for v in s]}, True)
+    rep.coverage["bandwidth_equivariance_runs_R"] = n_eq
+    rc = C.rng_for(PROP, "cdf")
+    n_cdf_runs = 0
+    for k in range(8 if quick else 60):
+        kind = rc.choice(["normal", "bimodal", "skewed", "heavy", "ties"])
+        s = gen_float_sample(rc, rc.randint(20, 400), kind)
+        mode = rc.choice(["user", "simple", "cv"])
+        bad = cdf_failures(s, mode, rc)
+        n_cdf_runs += 1
+        if bad:
+            rep.violation("C12/property", bad[0], {"check": "cdf", "mode": mode,
+                                                  "sample_hex": [float(v).hex() for v in s]}, True)
+            break
+    rep.coverage["cdf_runs_R"] = n_cdf_runs
+    lap("[R] runs")
+
+    # ---------- 5. collect the Coq results ----------
+    outs = fut_struct.result()
+    n_checked = 0
+    for p, idx, (ok, res, log) in zip(files, index, outs):
+        if not ok or 0 not in res:
+            rep.obligation(False)
+            rep.violation("C12/correspondence-run", f"case file {p.name} did not evaluate",
+                          {"theorem_or_correspondence": f"correspondence file {p.name}", "log": log[-800:]}, False)
+            continue
+        rep.obligation(True)
+        n_checked += len(idx)
+        codes = res[0]
+        cm = {codes[j]: codes[j + 1] for j in range(0, len(codes) - 1, 2)}
+        for j in sorted(cm):
+            code = cm[j]
+            what = [BITS[b] for b in range(7) if code >> b & 1]
+            suspicious[idx[j]] = "model and implementation disagree on: " + ", ".join(what)
+            for b in range(7):
+                if code >> b & 1:
+                    rep.count("disagree:" + BITS[b].split(" (")[0])
+    rep.coverage["structures_validated_against_impl"] = n_checked
+    lap("wait: structure in Coq")
+
+    failed, broken = fut_vals.result()
+    rep.obligation(True, len(goals) - len(failed))
+    rep.obligation(False, len(failed))
+    rep.coverage["interval_goals"] = {"pdf": n_pdf, "cdf": n_cdf, "failed": len(failed)}
+    for b in broken:
+        rep.violation("C12/goal-run", "a goal file could not be processed",
+                      {"theorem_or_correspondence": "generated interval goals", "log": b[-800:]}, False)
+    for gid, log in failed:
+        k, i = goal_case[gid]
+        suspicious.setdefault(k, f"interval goal {gid} fails: the model's value at point {float(obs_l[k]['points'][i])} "
+                                 f"is not the implementation's")
+    lap("wait: value goals")
+
+    failed, broken = fut_bw.result()
     rep.obligation(True, len(bw_goals) - len(failed))
     rep.obligation(False, len(failed))
     rep.coverage["bandwidth_goals"] = {"total": len(bw_goals), "failed": len(failed)}
@@ -587,40 +612,35 @@ def run(rep: C.Report, tier: str) -> int:
         seen.add((id(s), mode))
         bad = bandwidth_equivariance_failures(s, mode)
         if bad:
-            rep.violation("C12/property", bad[0],
-                          {"check": "bandwidth", "mode": mode, "sample_hex": [float(v).hex() for v in s]}, True)
+            if not any(v["replay"].get("mode") == mode for v in rep.violations):
+                rep.violation("C12/property", bad[0],
+                              {"check": "bandwidth", "mode": mode, "sample_hex": [float(v).hex() for v in s]}, True)
         else:
             rep.violation("C12/correspondence", f"bandwidth goal {gid} fails but shift/scale equivariance holds on this sample",
                           {"theorem_or_correspondence": "RealModel.Kde.rule_of_thumb / cv_widths",
                            "mode": mode, "sample_hex": [float(v).hex() for v in s]}, False)
-    lap("bandwidth goals")
-    # [R] equivariance of both automatic modes on every bandwidth sample
-    n_eq = 0
-    for kind, s in bw_samples[: (6 if quick else 40)]:
-        for mode in ("simple", "cv"):
-            bad = bandwidth_equivariance_failures(s, mode)
-            n_eq += 1
-            if bad and not any(v["key"] == "C12/property" and v["replay"].get("mode") == mode for v in rep.violations):
-                rep.violation("C12/property", bad[0],
-                              {"check": "bandwidth", "mode": mode, "sample_hex": [float(v).hex() for v in s]}, True)
-    rep.coverage["bandwidth_equivariance_runs_R"] = n_eq
+    lap("wait: bandwidth goals")
 
-    lap("bandwidth equivariance")
-    # ---------- 6. [R] cdf: monotone across regions, limits, = integral of pdf ----------
-    rc = C.rng_for(PROP, "cdf")
-    n_cdf_runs = 0
-    for k in range(8 if quick else 60):
-        kind = rc.choice(["normal", "bimodal", "skewed", "heavy", "ties"])
-        s = gen_float_sample(rc, rc.randint(20, 400), kind)
-        mode = rc.choice(["user", "simple", "cv"])
-        bad = cdf_failures(s, mode, rc)
-        n_cdf_runs += 1
-        if bad:
-            rep.violation("C12/property", bad[0], {"check": "cdf", "mode": mode,
-                                                  "sample_hex": [float(v).hex() for v in s]}, True)
+    # ---------- 6. failing-input search on every disagreement ----------
+    reported = 0
+    for k in sorted(suspicious):
+        if reported >= 3:
             break
-    rep.coverage["cdf_runs_R"] = n_cdf_runs
-    lap("cdf runs")
+        case, obs = cases[k], obs_l[k]
+        pts = obs.get("points") or [min(case["sample"]), max(case["sample"])]
+        bad = property_failures(case["sample"], case["h"], pts, rs)
+        reported += 1
+        if bad:
+            small = shrink_struct(case, pts)
+            rep.violation("C12/property", "; ".join(bad[:2]),
+                          {"check": "values", "case": describe(small[0], small[1]), "why": suspicious[k]}, True)
+        else:
+            rep.violation("C12/correspondence", suspicious[k] + " -- the property was not seen to fail on this input",
+                          {"theorem_or_correspondence": "Model.KdeRegions.check_structure / RealModel.Kde goals",
+                           "case": describe(case, pts)}, False)
+    rep.coverage["correspondence_disagreements"] = len(suspicious)
+    lap("search")
+    pool.shutdown()
 
     rep.assumptions = [
         "layer count n = int(log(range/h)/log 2)+1 is a float computation: it is read back from the code and the "
